@@ -600,18 +600,18 @@ End WithParams3.
 Section Top.
 Variable P : params.
 
-Lemma fu_from_list_live mrg l w :
+Lemma fu_from_list_live mrg h l w :
   Forall (fun c => cdone c = false) l ->
-  let '(u, w') := fu_from_list P mrg l w in gd w' = gd w /\ ulive u.
+  let '(u, w') := fu_from_list P mrg h l w in gd w' = gd w /\ ulive u.
 Proof.
   intros Hl. unfold fu_from_list.
-  assert (H0 : let '(u0, w0) := (if mrg then (fu_empty, w) else fu_with_capacity (Nat.max (length l) (pMinCap P)) w) in
+  assert (H0 : let '(u0, w0) := (if mrg then (fu_empty, w) else fu_with_capacity (Nat.max h (pMinCap P)) w) in
                gd w0 = gd w /\ ulive u0).
   { destruct mrg; [split; auto; constructor|]. unfold fu_with_capacity.
     destruct (Nat.eqb _ 0); [split; auto; constructor|].
-    destruct (gd_fub_new (Nat.max (length l) (pMinCap P)) w) as [A B].
-    destruct (fub_new (Nat.max (length l) (pMinCap P)) w) as [g w1]. simpl in *. split; auto. repeat constructor; auto. }
-  destruct (if mrg then (fu_empty, w) else fu_with_capacity (Nat.max (length l) (pMinCap P)) w) as [u0 w0].
+    destruct (gd_fub_new (Nat.max h (pMinCap P)) w) as [A B].
+    destruct (fub_new (Nat.max h (pMinCap P)) w) as [g w1]. simpl in *. split; auto. repeat constructor; auto. }
+  destruct (if mrg then (fu_empty, w) else fu_with_capacity (Nat.max h (pMinCap P)) w) as [u0 w0].
   destruct H0 as [A B]. revert u0 w0 A B. induction Hl as [|c l Hc Hl IH]; intros u0 w0 A B; simpl; auto.
   pose proof (@fu_push_live P mrg u0 c w0 B Hc) as Hp. destruct (fu_push P mrg u0 c w0) as [u1 w1].
   destruct Hp as [Q1 Q2]. simpl. apply IH; auto. congruence.
@@ -632,13 +632,13 @@ Proof.
     + destruct (gd_fub_from_list w Hm). destruct (fub_from_list (mk_children inits) w). auto.
     + destruct (gd_fub_new (p_cap p) w). destruct (fub_new (p_cap p) w). auto.
   - destruct (p_iter p); [|destruct (p_new p)].
-    + pose proof (@fu_from_list_live false _ w Hm) as H. destruct (fu_from_list P false (mk_children inits) w). auto.
+    + pose proof (@fu_from_list_live false (lazy_hint p (mk_children inits)) _ w Hm) as H. destruct (fu_from_list P false (lazy_hint p (mk_children inits)) (mk_children inits) w). auto.
     + split; auto. constructor.
     + unfold fu_with_capacity. destruct (Nat.eqb _ 0); [split; auto; constructor|].
       destruct (gd_fub_new (p_cap p) w). destruct (fub_new (p_cap p) w). simpl in *. split; auto. repeat constructor; auto.
   - destruct (gd_fub_from_list w Hm). destruct (fub_from_list (mk_children inits) w). auto.
   - destruct (p_iter p); [|destruct (p_new p)].
-    + pose proof (@fu_from_list_live true _ w Hm) as H. destruct (fu_from_list P true (mk_children inits) w). auto.
+    + pose proof (@fu_from_list_live true (lazy_hint p (mk_children inits)) _ w Hm) as H. destruct (fu_from_list P true (lazy_hint p (mk_children inits)) (mk_children inits) w). auto.
     + split; auto. constructor.
     + unfold fu_with_capacity. destruct (Nat.eqb _ 0); [split; auto; constructor|].
       destruct (gd_fub_new (p_cap p) w). destruct (fub_new (p_cap p) w). simpl in *. split; auto. repeat constructor; auto.
@@ -648,8 +648,8 @@ Proof.
     + specialize (Hfob (p_cap p) (seed_of p)). destruct (fob_new P (p_cap p) (seed_of p) w) as [[q|] w1]; auto.
       split; simpl; auto.
   - destruct (p_iter p); [|destruct (p_new p)].
-    + unfold fo_from_list. pose proof (@fu_from_list_live false _ w Hidx) as H.
-      destruct (fu_from_list P false (index_children P (mk_children inits) 0) w). destruct H. simpl.
+    + unfold fo_from_list. pose proof (@fu_from_list_live false (lazy_hint p (mk_children inits)) _ w Hidx) as H.
+      destruct (fu_from_list P false (lazy_hint p (mk_children inits)) (index_children P (mk_children inits) 0) w). destruct H. simpl.
       split; auto. destruct (mk_children inits); simpl; auto. destruct (p_seed p); auto.
     + split; auto. constructor.
     + unfold fo_with_capacity, fu_with_capacity, heap_cap_for. destruct (Nat.eqb _ 0); [split; auto; constructor|].
